@@ -1,5 +1,5 @@
-(* Proofs/PrioClass.v — the class NewZ of Proofs.MergePrio is decidable (a checker, proved sound), and executable comparison of
-   priority images; used by the correspondence of the specification Spec.UpdateP.upd_p with Builder.build. *)
+(* Proofs/PrioClass.v — the classes of Proofs.MergePrio / PrioLoad and the side condition lcompat are decidable (checkers, proved sound), and
+   executable comparison of priority images; used by the correspondence of the specification Spec.UpdateP.upd_p with Builder.build. *)
 From AY Require Import Model.Merge Model.Eq Proofs.NodeInd Proofs.FlagsLemmas Spec.Update Spec.UpdateP Proofs.MergePlain
   Proofs.MergeNotNew Proofs.MergeGen Proofs.MergeMode Proofs.MergePrio Model.Loader Proofs.LoaderLemmas Proofs.PrioPath Proofs.PrioLoad Proofs.EvalPlain Model.Eval.
 
@@ -7,32 +7,107 @@ Definition nz_b (f : flags) : bool :=
   match f_del f with None => (negb (ob_eqb (f_new f) (Some false)) && negb (ob_eqb (f_inew f) (Some false)))%bool | Some _ => false end.
 Definition idel_none_b (f : flags) : bool := match f_idel f with None => true | Some _ => false end.
 
+Lemma nz_b_ok f : nz_b f = true -> NZ f.
+Proof. unfold nz_b, NZ, OZ. destruct (f_del f); [discriminate|]. destruct (f_new f) as [[|]|], (f_inew f) as [[|]|]; cbn; try discriminate; intros _; repeat split; congruence. Qed.
+
+(* uniform subtrees (what sits in a list) *)
+Fixpoint un_b (p : Z) (n : node) : bool :=
+  match n with
+  | Leaf LScalar f _ => (nz_b f && ob_eqb (f_idel f) (Some true) && (priority f =? p))%bool
+  | Comp CDict f _ ch => (nz_b f && ob_eqb (f_idel f) (Some true) && (priority f =? p) && nodup_b (map fst ch) &&
+                          (fix go (l : list (key * node)) := match l with [] => true | (_, c) :: r => (un_b p c && go r)%bool end) ch)%bool
+  | Comp CList f _ ch => (nz_b f && ob_eqb (f_idel f) (Some true) && (priority f =? p) && keys_enum_b 0 ch &&
+                          (fix go (l : list (key * node)) := match l with [] => true | (_, c) :: r => (un_b p c && go r)%bool end) ch)%bool
+  | _ => false
+  end.
+
+Lemma ob_eqb_true_some a b : ob_eqb a (Some b) = true -> a = Some b.
+Proof. destruct a as [[|]|], b; cbn; intro H; try discriminate; reflexivity. Qed.
+
+Lemma un_b_ok p : forall n, un_b p n = true -> UN p n.
+Proof.
+  induction n as [k f v|k f x ch IH] using node_ind'; intro H.
+  - destruct k; try discriminate. cbn [un_b] in H.
+    apply andb_true_iff in H. destruct H as [H H3]. apply andb_true_iff in H. destruct H as [H1 H2].
+    constructor; [now apply nz_b_ok|now apply ob_eqb_true_some|lia].
+  - destruct k; try discriminate; cbn [un_b] in H;
+      apply andb_true_iff in H; destruct H as [H H5]; apply andb_true_iff in H; destruct H as [H H4];
+      apply andb_true_iff in H; destruct H as [H H3]; apply andb_true_iff in H; destruct H as [H1 H2].
+    + apply UNDict; [now apply nz_b_ok|now apply ob_eqb_true_some|lia| |now apply nodup_b_ok].
+      clear H1 H2 H3 H4. induction IH as [|[kk c] r Hc Hr IHr]; [constructor|].
+      apply andb_true_iff in H5. destruct H5 as [A B]. constructor; [apply Hc; exact A|apply IHr; exact B].
+    + apply UNList; [now apply nz_b_ok|now apply ob_eqb_true_some|lia| |now apply keys_enum_b_ok].
+      clear H1 H2 H3 H4. induction IH as [|[kk c] r Hc Hr IHr]; [constructor|].
+      apply andb_true_iff in H5. destruct H5 as [A B]. constructor; [apply Hc; exact A|apply IHr; exact B].
+Qed.
+
 Fixpoint newz_b (n : node) : bool :=
   match n with
   | Leaf LScalar f _ => nz_b f
   | Comp CDict f _ ch => (nz_b f && idel_none_b f && nodup_b (map fst ch) &&
                           (fix go (l : list (key * node)) := match l with [] => true | (_, c) :: r => (newz_b c && go r)%bool end) ch)%bool
+  | Comp CList f _ ch => (nz_b f && negb (ob_eqb (f_idel f) (Some false)) && keys_enum_b 0 ch &&
+                          (fix go (l : list (key * node)) := match l with [] => true | (_, c) :: r => (un_b (priority f) c && go r)%bool end) ch)%bool
   | _ => false
   end.
-
-Lemma nz_b_ok f : nz_b f = true -> NZ f.
-Proof. unfold nz_b, NZ, OZ. destruct (f_del f); [discriminate|]. destruct (f_new f) as [[|]|], (f_inew f) as [[|]|]; cbn; try discriminate; intros _; repeat split; congruence. Qed.
 
 Lemma newz_b_ok : forall n, newz_b n = true -> NewZ n.
 Proof.
   induction n as [k f v|k f x ch IH] using node_ind'; intro H.
   - destruct k; try discriminate. constructor. now apply nz_b_ok.
-  - destruct k; try discriminate. cbn [newz_b] in H.
-    apply andb_true_iff in H. destruct H as [H H4]. apply andb_true_iff in H. destruct H as [H H3]. apply andb_true_iff in H. destruct H as [H1 H2].
-    constructor; [now apply nz_b_ok|unfold idel_none_b in H2; destruct (f_idel f); [discriminate|reflexivity]| |now apply nodup_b_ok].
-    clear H1 H2 H3. induction IH as [|[kk c] r Hc Hr IHr]; [constructor|].
-    apply andb_true_iff in H4. destruct H4 as [A B]. constructor; [apply Hc; exact A|apply IHr; exact B].
+  - destruct k; try discriminate; cbn [newz_b] in H;
+      apply andb_true_iff in H; destruct H as [H H4]; apply andb_true_iff in H; destruct H as [H H3]; apply andb_true_iff in H; destruct H as [H1 H2].
+    + constructor; [now apply nz_b_ok|unfold idel_none_b in H2; destruct (f_idel f); [discriminate|reflexivity]| |now apply nodup_b_ok].
+      clear H1 H2 H3. induction IH as [|[kk c] r Hc Hr IHr]; [constructor|].
+      apply andb_true_iff in H4. destruct H4 as [A B]. constructor; [apply Hc; exact A|apply IHr; exact B].
+    + apply NZList; [now apply nz_b_ok|intro E; rewrite E in H2; discriminate| |now apply keys_enum_b_ok].
+      clear - H4. induction ch as [|[kk c] r IHr]; [constructor|].
+      apply andb_true_iff in H4. destruct H4 as [A B]. constructor; [apply un_b_ok; exact A|apply IHr; exact B].
+Qed.
+
+(* the side condition *)
+Fixpoint lcompat_b (old new : pp) {struct new} : bool :=
+  match new with
+  | PPD _ kv =>
+    match old with
+    | PPD _ okv =>
+      (fix go (l : list (key * pp)) : bool :=
+         match l with
+         | [] => true
+         | (k, v) :: r => ((match aget k okv with Some ov => lcompat_b ov v | None => true end) && go r)%bool
+         end) kv
+    | PPS _ (AL _) => false
+    | PPS _ (AS _) => true
+    end
+  | PPS _ (AL _) => match old with PPD _ _ => false | _ => true end
+  | PPS _ (AS _) => true
+  end.
+
+Lemma lcompat_b_ok : forall new old, lcompat_b old new = true -> lcompat old new.
+Proof.
+  fix IH 1. intros new old H. destruct new as [pn [vn|ln]|pn kv]; [exact I|destruct old as [po [vo|lo]|po okv]; [exact I|exact I|discriminate]|].
+  destruct old as [po [vo|lo]|po okv]; [exact I|discriminate|].
+  cbn [lcompat lcompat_b] in *. induction kv as [|[k v] r IHr]; [exact I|].
+  apply andb_true_iff in H. destruct H as [A B]. split; [|apply IHr; exact B].
+  destruct (aget k okv) as [ov|]; [apply IH; exact A|exact I].
+Qed.
+
+Fixpoint hcompat_b (d0 : pp) (ds : list pp) : bool :=
+  match ds with [] => true | d :: r => (lcompat_b d0 d && hcompat_b (upd_p d0 d) r)%bool end.
+
+Lemma hcompat_b_ok : forall ds d0, hcompat_b d0 ds = true -> hcompat d0 ds.
+Proof.
+  induction ds as [|d r IH]; intros d0 H; [exact I|]. cbn [hcompat_b hcompat] in *. apply andb_true_iff in H. destruct H as [A B].
+  split; [apply lcompat_b_ok; exact A|apply IH; exact B].
 Qed.
 
 (* executable equality of priority images *)
+Definition atom_eqb (a b : atom) : bool :=
+  match a, b with AS v, AS v' => scalar_eqb v v' | AL l, AL l' => plain_eqb (PL l) (PL l') | _, _ => false end.
+
 Fixpoint pp_eqb (a b : pp) : bool :=
   match a, b with
-  | PPS p v, PPS p' v' => ((p =? p') && scalar_eqb v v')%bool
+  | PPS p v, PPS p' v' => ((p =? p') && atom_eqb v v')%bool
   | PPD p kv, PPD p' kv' =>
     ((p =? p') &&
      (fix go (l l' : list (key * pp)) : bool :=
@@ -47,38 +122,66 @@ Fixpoint pp_eqb (a b : pp) : bool :=
 (* the values alone *)
 Fixpoint pvals (d : pp) : plain :=
   match d with
-  | PPS _ v => PS v
+  | PPS _ (AS v) => PS v
+  | PPS _ (AL l) => PL l
   | PPD _ kv => PD ((fix go (l : list (key * pp)) := match l with [] => [] | (k, c) :: r => (k, pvals c) :: go r end) kv)
   end.
 
-(* what the theorem flatten_prio predicts for a list of stage trees, if they are all in its class *)
+(* what the theorem flatten_prio predicts for a list of stage trees, if they are all in its class and no mapping meets a list *)
 Definition predict_prio (stages : list node) : option pp :=
   match stages with
-  | s0 :: sts => if (forallb newz_b stages && forallb is_dictk stages)%bool then Some (fold_left upd_p (map perase sts) (perase s0)) else None
+  | s0 :: sts => if (forallb newz_b stages && forallb is_dictk stages && hcompat_b (perase s0) (map perase sts))%bool
+                 then Some (fold_left upd_p (map perase sts) (perase s0)) else None
   | [] => None
   end.
 
 Theorem predict_prio_ok e stages d : predict_prio stages = Some d -> exists n, flatten e stages = Ok n /\ perase n = d.
 Proof.
   destruct stages as [|s0 sts]; [discriminate|]. unfold predict_prio.
-  destruct (forallb newz_b (s0 :: sts) && forallb is_dictk (s0 :: sts))%bool eqn:E; [|discriminate].
-  apply andb_true_iff in E. destruct E as [E1 E2]. intro H. inversion H; subst.
-  apply flatten_prio; [|exact E2]. rewrite forallb_forall in E1. apply Forall_forall. intros x Hx. apply newz_b_ok, E1, Hx.
+  destruct (forallb newz_b (s0 :: sts) && forallb is_dictk (s0 :: sts) && hcompat_b (perase s0) (map perase sts))%bool eqn:E; [|discriminate].
+  apply andb_true_iff in E. destruct E as [E E3]. apply andb_true_iff in E. destruct E as [E1 E2]. intro H. inversion H; subst.
+  apply flatten_prio; [|exact E2|apply hcompat_b_ok; exact E3]. rewrite forallb_forall in E1. apply Forall_forall. intros x Hx. apply newz_b_ok, E1, Hx.
 Qed.
 
 (* ---------- the same from the document down ---------- *)
 Definition tz_b (t : tagkw) : bool := match t_del t with None => negb (ob_eqb (t_new t) (Some false)) | Some _ => false end.
+Definition tin_b (t : tagkw) : bool := (tz_b t && match t_prio t with None => true | Some _ => false end)%bool.
+
+Lemma tz_b_ok t : tz_b t = true -> tz t.
+Proof. unfold tz_b, tz. destruct (t_del t); [discriminate|]. destruct (t_new t) as [[|]|]; cbn; try discriminate; intros _; split; congruence. Qed.
+
+Lemma tin_b_ok t : tin_b t = true -> tin t.
+Proof. unfold tin_b, tin. intro H. apply andb_true_iff in H. destruct H as [A B]. split; [now apply tz_b_ok|]. destruct (t_prio t); [discriminate|reflexivity]. Qed.
+
+Fixpoint yin_b (y : ynode) : bool :=
+  match y with
+  | YS t _ => tin_b t
+  | YM t l => (tin_b t && nodup_b (map fst l) &&
+               (fix go (l : list (key * ynode)) := match l with [] => true | (_, x) :: r => (yin_b x && go r)%bool end) l)%bool
+  | YQ t l => (tin_b t && (fix go (l : list ynode) := match l with [] => true | x :: r => (yin_b x && go r)%bool end) l)%bool
+  end.
+
+Lemma yin_b_ok : forall y, yin_b y = true -> yin y.
+Proof.
+  induction y as [t v|t l IH|t l IH] using ynode_ind'; intro H.
+  - constructor. now apply tin_b_ok.
+  - cbn [yin_b] in H. apply andb_true_iff in H. destruct H as [H H3]. apply andb_true_iff in H. destruct H as [H1 H2].
+    constructor; [now apply tin_b_ok| |now apply nodup_b_ok].
+    clear H1 H2. induction IH as [|[k x] r Hx Hr IHr]; [constructor|].
+    apply andb_true_iff in H3. destruct H3 as [A B]. constructor; [apply Hx; exact A|apply IHr; exact B].
+  - cbn [yin_b] in H. apply andb_true_iff in H. destruct H as [H1 H3].
+    constructor; [now apply tin_b_ok|].
+    clear H1. induction IH as [|x r Hx Hr IHr]; [constructor|].
+    apply andb_true_iff in H3. destruct H3 as [A B]. constructor; [apply Hx; exact A|apply IHr; exact B].
+Qed.
 
 Fixpoint yz_b (y : ynode) : bool :=
   match y with
   | YS t _ => tz_b t
   | YM t l => (tz_b t && nodup_b (map fst l) &&
                (fix go (l : list (key * ynode)) := match l with [] => true | (_, x) :: r => (yz_b x && go r)%bool end) l)%bool
-  | YQ _ _ => false
+  | YQ t l => (tz_b t && forallb yin_b l)%bool
   end.
-
-Lemma tz_b_ok t : tz_b t = true -> tz t.
-Proof. unfold tz_b, tz. destruct (t_del t); [discriminate|]. destruct (t_new t) as [[|]|]; cbn; try discriminate; intros _; split; congruence. Qed.
 
 Lemma yz_b_ok : forall y, yz_b y = true -> yz y.
 Proof.
@@ -88,21 +191,23 @@ Proof.
     constructor; [now apply tz_b_ok| |now apply nodup_b_ok].
     clear H1 H2. induction IH as [|[k x] r Hx Hr IHr]; [constructor|].
     apply andb_true_iff in H3. destruct H3 as [A B]. constructor; [apply Hx; exact A|apply IHr; exact B].
-  - discriminate.
+  - cbn [yz_b] in H. apply andb_true_iff in H. destruct H as [H1 H2]. constructor; [now apply tz_b_ok|].
+    rewrite forallb_forall in H2. apply Forall_forall. intros x Hx. apply yin_b_ok, H2, Hx.
 Qed.
 
 Definition predict_docs (ys : list ynode) : option pp :=
   match ys with
-  | y0 :: r => if (forallb yz_b ys && forallb is_YM ys)%bool then Some (fold_left upd_p (map (yprio None) r) (yprio None y0)) else None
+  | y0 :: r => if (forallb yz_b ys && forallb is_YM ys && hcompat_b (yprio None y0) (map (yprio None) r))%bool
+               then Some (fold_left upd_p (map (yprio None) r) (yprio None y0)) else None
   | [] => None
   end.
 
 Theorem predict_docs_ok e c ys d : predict_docs ys = Some d -> exists n, flatten e (map (load_doc c) ys) = Ok n /\ perase n = d.
 Proof.
   destruct ys as [|y0 r]; [discriminate|]. unfold predict_docs.
-  destruct (forallb yz_b (y0 :: r) && forallb is_YM (y0 :: r))%bool eqn:E; [|discriminate].
-  apply andb_true_iff in E. destruct E as [E1 E2]. intro H. inversion H; subst.
-  apply flatten_prio_docs; [|exact E2]. rewrite forallb_forall in E1. apply Forall_forall. intros x Hx. apply yz_b_ok, E1, Hx.
+  destruct (forallb yz_b (y0 :: r) && forallb is_YM (y0 :: r) && hcompat_b (yprio None y0) (map (yprio None) r))%bool eqn:E; [|discriminate].
+  apply andb_true_iff in E. destruct E as [E E3]. apply andb_true_iff in E. destruct E as [E1 E2]. intro H. inversion H; subst.
+  apply flatten_prio_docs; [|exact E2|apply hcompat_b_ok; exact E3]. rewrite forallb_forall in E1. apply Forall_forall. intros x Hx. apply yz_b_ok, E1, Hx.
 Qed.
 
 (* ---------- down to the evaluated config ---------- *)
@@ -113,37 +218,30 @@ Lemma pvals_perase : forall n, OldZ n -> pvals (perase n) = erase n.
 Proof.
   induction n as [k f v|k f x ch IH] using node_ind'; intro H.
   - inversion H; subst. reflexivity.
-  - inversion H as [|f0 x0 ch0 HO HF Hnd]; subst. rewrite perase_comp, pvals_PPD, erase_comp. cbn [is_listk]. f_equal.
-    unfold pch. rewrite map_map. cbn [fst snd].
-    clear H Hnd. induction IH as [|kc r Hkc Hr IHr]; cbn [map]; [reflexivity|]. inversion HF; subst. now rewrite Hkc, IHr.
-Qed.
-
-Lemma flatten_prio_oldz e s0 sts : Forall NewZ (s0 :: sts) -> forallb is_dictk (s0 :: sts) = true ->
-  exists n, flatten e (s0 :: sts) = Ok n /\ OldZ n /\ perase n = fold_left upd_p (map perase sts) (perase s0).
-Proof.
-  intros HF Hd. inversion HF as [|? ? Hp HF']; subst.
-  unfold flatten. rewrite Hd.
-  rewrite (premerge_plainT e s0 [] None (OldZ_PlainT _ (NewZ_oldz _ Hp))). cbn [bind].
-  rewrite require_all_new_newz by exact Hp.
-  destruct (fold_merge2_z e sts s0 (NewZ_oldz _ Hp) HF') as (n & E & Hn & En). eauto.
+  - inversion H as [|f0 x0 ch0 HO HF Hnd|f0 x0 ch0 HO HF HK]; subst.
+    + rewrite perase_dict, pvals_PPD, erase_comp. cbn [is_listk]. f_equal.
+      unfold pch. rewrite map_map. cbn [fst snd].
+      clear H Hnd. induction IH as [|kc r Hkc Hr IHr]; cbn [map]; [reflexivity|]. inversion HF; subst. now rewrite Hkc, IHr.
+    + rewrite perase_list, erase_comp. reflexivity.
 Qed.
 
 (* the config BUILT from prioritised mapping documents (merge, check for placeholders, deep copy, evaluation) holds exactly the values
    of the prioritised update of the documents *)
 Theorem docs_evaluated_config e pe fe c y0 ys : Forall yz (y0 :: ys) -> forallb is_YM (y0 :: ys) = true ->
+  hcompat (yprio None y0) (map (yprio None) ys) ->
   exists n v st, flatten e (map (load_doc c) (y0 :: ys)) = Ok n /\ config pe fe n = Ok (v, st) /\
                  vplain v = pvals (fold_left upd_p (map (yprio None) ys) (yprio None y0)).
 Proof.
-  intros HF HM.
+  intros HF HM Hh.
   assert (HN : Forall NewZ (map (load_doc c) (y0 :: ys))).
-  { clear HM. induction HF as [|y r Hy Hr IHr]; cbn [map]; [constructor|]. constructor; [apply (load_doc_newz c y Hy)|exact IHr]. }
+  { clear HM Hh. induction HF as [|y r Hy Hr IHr]; cbn [map]; [constructor|]. constructor; [apply (load_doc_newz c y Hy)|exact IHr]. }
   assert (HD : forallb is_dictk (map (load_doc c) (y0 :: ys)) = true).
-  { clear HF HN. induction (y0 :: ys) as [|y r IHr]; [reflexivity|]. cbn [forallb map] in *. apply andb_true_iff in HM. destruct HM as [A B].
+  { clear HF HN Hh. induction (y0 :: ys) as [|y r IHr]; [reflexivity|]. cbn [forallb map] in *. apply andb_true_iff in HM. destruct HM as [A B].
     now rewrite (MergeGen.load_doc_dict c y A), IHr. }
-  cbn [map] in HN, HD. destruct (flatten_prio_oldz e _ _ HN HD) as (n & E & Hn & En).
+  inversion HF as [|? ? H0 HF']; subst.
+  cbn [map] in HN, HD. destruct (flatten_prio_l e _ _ HN HD) as (n & E & Hn & En).
+  { rewrite (proj2 (load_doc_newz c y0 H0)), (perase_load_docs c ys HF'). exact Hh. }
   destruct (config_plain pe fe n (OldZ_PlainT _ Hn)) as (v & st & Ec & Ev).
   exists n, v, st. split; [exact E|]. split; [exact Ec|].
-  rewrite Ev, <- (pvals_perase n Hn), En. f_equal.
-  inversion HF as [|? ? H0 HF']; subst. rewrite (proj2 (load_doc_newz c y0 H0)). f_equal.
-  rewrite map_map. clear - HF'. induction HF' as [|y r Hy Hr IHr]; cbn [map]; [reflexivity|]. now rewrite (proj2 (load_doc_newz c y Hy)), IHr.
+  now rewrite Ev, <- (pvals_perase n Hn), En, (proj2 (load_doc_newz c y0 H0)), (perase_load_docs c ys HF').
 Qed.
